@@ -1,6 +1,8 @@
 import BlobfinderModel.Properties.C03
 import BlobfinderModel.Properties.C13
 import BlobfinderModel.Gen.Blocks
+import BlobfinderModel.Properties.C08
+import BlobfinderModel.Model.Pipeline
 /-!
 # C04 — results stay in the search window and are well-formed for arbitrary data
 Proved: index / sign / finiteness *logic*.  Residual (A-FLOAT): finiteness of the FFT pipeline
@@ -195,6 +197,154 @@ theorem evaluate_refined_within (corr : ℤ → ℤ → ℚ) (n m : ℕ) (hn : 0
     rw [Int.toNat_of_nonneg hy0, Int.toNat_of_nonneg hx0, hh] at this
     exact this)
   exact key
+
+/-! ### The pipelines composed end to end (model level)
+
+`Model.fastPeak` / `Model.fullPeak` compose the stage models — crop (generated cell logic), log
+scaling (generated argument), correlation map (direct circular sum with the generated shift kind),
+evaluation kernels, re-anchoring (generated `_shift`) — and `Model.processFrameFast/Full` run them
+through the generated block arithmetic.  The theorems below are statements about *these composed
+functions* for every frame, mask, peak list, crop size and buffer count. -/
+
+/-- what the crop-based method takes the logarithm of: window value − window minimum + 1 -/
+theorem logCrop_def (L : ℚ → ℚ) (crop : ℤ → ℤ → ℚ) (h w y x : ℤ) :
+    logCrop L crop h w y x = L (crop y x - minList (flat crop h w) + 1) := by
+  unfold logCrop Gen.cropbuf_log_arg Gen.cropbuf_m
+  congr 1; ring
+
+/-- what the full-frame method takes the logarithm of: pixel − frame minimum + 1 -/
+theorem logFrame_def (L : ℚ → ℚ) (frame : ℤ → ℤ → ℚ) (fy fx y x : ℤ) :
+    logFrame L frame fy fx y x = L (frame y x - minList (flat frame fy fx) + 1) := by
+  unfold logFrame Gen.log_arg
+  rfl
+
+/-- **the correlation map of a window is the circular correlation of the log-scaled window with the
+mask whose pixel `c = shape // 2` sits on the evaluated position**: entry `(y, x)` sums
+`mask[my, mx] · data[(y + c − my) mod 2c, (x + c − mx) mod 2c]` -/
+theorem fastCorr_def (L : ℚ → ℚ) (mask frame : ℤ → ℤ → ℚ) (fy fx c : ℤ) (hc : 0 < c) (p : ℤ × ℤ) (y x : ℤ) :
+    fastCorr L mask frame fy fx c p y x
+      = lsum ((irange (2 * c)).map fun my => lsum ((irange (2 * c)).map fun mx =>
+          mask my mx *
+            logCrop L (fun yy xx => window frame fy fx (p.1 - c + yy) (p.2 - c + xx)) (2 * c) (2 * c)
+              ((y + c - my) % (2 * c)) ((x + c - mx) % (2 * c)))) := by
+  unfold fastCorr corrMap shiftSrc
+  have hk : Gen.fast_corr_shift = "fft.ifftshift" := rfl
+  simp only [hk, true_or, if_true]
+  have h2 : 2 * c / 2 = c := by omega
+  have hcrop : (fun yy xx => cropPixel frame fy fx c p.1 p.2 yy xx)
+      = (fun yy xx => window frame fy fx (p.1 - c + yy) (p.2 - c + xx)) := by
+    funext yy xx; exact C13.cropPixel_eq_window frame fy fx c p.1 p.2 yy xx
+  rw [hcrop, h2]
+  have hmod : ∀ a m : ℤ, ((a + c) % (2 * c) - m) % (2 * c) = (a + c - m) % (2 * c) := by
+    intro a m
+    rw [Int.sub_emod, Int.emod_emod_of_dvd _ (dvd_refl _), ← Int.sub_emod]
+  simp only [hmod]
+
+/-- **C03 + C04 for one peak of the crop-based method, every input**: the reported centre lies in
+`[peak − c, peak + c − 1]²`; the reported height is the value of the window's correlation map at
+that centre and no value of the map exceeds it; the refined position is within 2 px of the centre. -/
+theorem fastPeak_spec (L : ℚ → ℚ) (mask frame : ℤ → ℤ → ℚ) (fy fx : ℤ) (c : ℕ) (hc : 0 < c) (p : ℤ × ℤ) :
+    let e := fastPeak L mask frame fy fx c p
+    let corr := fastCorr L mask frame fy fx c p
+    (p.1 - c ≤ e.cy ∧ e.cy ≤ p.1 + c - 1) ∧ (p.2 - c ≤ e.cx ∧ e.cx ≤ p.2 + c - 1) ∧
+    e.height = corr (e.cy - p.1 + c) (e.cx - p.2 + c) ∧
+    (∀ y x : ℤ, 0 ≤ y → y < 2 * c → 0 ≤ x → x < 2 * c → corr y x ≤ e.height) ∧
+    |e.ry - (e.cy : ℚ)| ≤ 2 ∧ |e.rx - (e.cx : ℚ)| ≤ 2 := by
+  intro e corr
+  have hcast : ((2 * c : ℕ) : ℤ) = 2 * (c : ℤ) := by push_cast; ring
+  have hpos : 0 < 2 * c := by omega
+  obtain ⟨hcy, hcx, hh, hmax, _⟩ := C03.evaluate_center_is_max corr (2 * c) (2 * c) hpos hpos
+  obtain ⟨hry, hrx⟩ := evaluate_refined_within corr (2 * c) (2 * c) hpos hpos
+  rw [hcast] at hcy hcx hh hmax hry hrx
+  have ecy : e.cy = Gen.shift (evaluate corr (2 * (c : ℤ)) (2 * (c : ℤ))).cy p.1 c := rfl
+  have ecx : e.cx = Gen.shift (evaluate corr (2 * (c : ℤ)) (2 * (c : ℤ))).cx p.2 c := rfl
+  have eh : e.height = (evaluate corr (2 * (c : ℤ)) (2 * (c : ℤ))).height := rfl
+  have ery : e.ry = (evaluate corr (2 * (c : ℤ)) (2 * (c : ℤ))).ry + ((Gen.shift 0 p.1 c : ℤ) : ℚ) := rfl
+  have erx : e.rx = (evaluate corr (2 * (c : ℤ)) (2 * (c : ℤ))).rx + ((Gen.shift 0 p.2 c : ℤ) : ℚ) := rfl
+  unfold Gen.shift at ecy ecx ery erx
+  refine ⟨by omega, by omega, ?_, ?_, ?_, ?_⟩
+  · rw [eh, hh, ecy, ecx]; congr 1 <;> ring
+  · intro y x hy0 hy1 hx0 hx1
+    have := hmax y.toNat x.toNat (by omega) (by omega)
+    rw [Int.toNat_of_nonneg hy0, Int.toNat_of_nonneg hx0] at this
+    rw [eh]; exact this
+  · rw [ery, ecy]; push_cast
+    have : (evaluate corr (2 * (c : ℤ)) (2 * (c : ℤ))).ry + ((0 : ℚ) + (p.1 : ℚ) - (c : ℚ))
+        - (((evaluate corr (2 * (c : ℤ)) (2 * (c : ℤ))).cy : ℚ) + (p.1 : ℚ) - (c : ℚ))
+        = (evaluate corr (2 * (c : ℤ)) (2 * (c : ℤ))).ry - ((evaluate corr (2 * (c : ℤ)) (2 * (c : ℤ))).cy : ℚ) := by ring
+    rw [this]; exact hry
+  · rw [erx, ecx]; push_cast
+    have : (evaluate corr (2 * (c : ℤ)) (2 * (c : ℤ))).rx + ((0 : ℚ) + (p.2 : ℚ) - (c : ℚ))
+        - (((evaluate corr (2 * (c : ℤ)) (2 * (c : ℤ))).cx : ℚ) + (p.2 : ℚ) - (c : ℚ))
+        = (evaluate corr (2 * (c : ℤ)) (2 * (c : ℤ))).rx - ((evaluate corr (2 * (c : ℤ)) (2 * (c : ℤ))).cx : ℚ) := by ring
+    rw [this]; exact hrx
+
+/-- **the same for one peak of the full-frame method**: the window is cut out of the frame-sized
+correlation map (zero outside the frame), the centre is in the window, the height is the window's
+maximum, attained at the centre -/
+theorem fullPeak_spec (L : ℚ → ℚ) (mask frame : ℤ → ℤ → ℚ) (fy fx : ℤ) (c : ℕ) (hc : 0 < c) (p : ℤ × ℤ) :
+    let e := fullPeak L mask frame fy fx c p
+    let win : ℤ → ℤ → ℚ := fun y x => window (fullCorr L mask frame fy fx) fy fx (p.1 - c + y) (p.2 - c + x)
+    (p.1 - c ≤ e.cy ∧ e.cy ≤ p.1 + c - 1) ∧ (p.2 - c ≤ e.cx ∧ e.cx ≤ p.2 + c - 1) ∧
+    e.height = window (fullCorr L mask frame fy fx) fy fx e.cy e.cx ∧
+    (∀ y x : ℤ, 0 ≤ y → y < 2 * c → 0 ≤ x → x < 2 * c → win y x ≤ e.height) ∧
+    |e.ry - (e.cy : ℚ)| ≤ 2 ∧ |e.rx - (e.cx : ℚ)| ≤ 2 := by
+  intro e win
+  have hwin : (fun y x => cropPixel (fullCorr L mask frame fy fx) fy fx c p.1 p.2 y x) = win := by
+    funext y x; exact C13.cropPixel_eq_window _ fy fx c p.1 p.2 y x
+  have hcast : ((2 * c : ℕ) : ℤ) = 2 * (c : ℤ) := by push_cast; ring
+  have hpos : 0 < 2 * c := by omega
+  obtain ⟨hcy, hcx, hh, hmax, _⟩ := C03.evaluate_center_is_max win (2 * c) (2 * c) hpos hpos
+  obtain ⟨hry, hrx⟩ := evaluate_refined_within win (2 * c) (2 * c) hpos hpos
+  rw [hcast] at hcy hcx hh hmax hry hrx
+  have ee : e = reanchor (evaluate win (2 * (c : ℤ)) (2 * (c : ℤ))) p.1 p.2 c := by
+    show reanchor (evaluate (fun y x => cropPixel (fullCorr L mask frame fy fx) fy fx c p.1 p.2 y x) _ _) _ _ _ = _
+    rw [hwin]
+  have ecy : e.cy = Gen.shift (evaluate win (2 * (c : ℤ)) (2 * (c : ℤ))).cy p.1 c := by rw [ee]; rfl
+  have ecx : e.cx = Gen.shift (evaluate win (2 * (c : ℤ)) (2 * (c : ℤ))).cx p.2 c := by rw [ee]; rfl
+  have eh : e.height = (evaluate win (2 * (c : ℤ)) (2 * (c : ℤ))).height := by rw [ee]; rfl
+  have ery : e.ry = (evaluate win (2 * (c : ℤ)) (2 * (c : ℤ))).ry + ((Gen.shift 0 p.1 c : ℤ) : ℚ) := by rw [ee]; rfl
+  have erx : e.rx = (evaluate win (2 * (c : ℤ)) (2 * (c : ℤ))).rx + ((Gen.shift 0 p.2 c : ℤ) : ℚ) := by rw [ee]; rfl
+  unfold Gen.shift at ecy ecx ery erx
+  refine ⟨by omega, by omega, ?_, ?_, ?_, ?_⟩
+  · rw [eh, hh, ecy, ecx]
+    show window _ fy fx _ _ = window _ fy fx _ _
+    congr 1 <;> ring
+  · intro y x hy0 hy1 hx0 hx1
+    have := hmax y.toNat x.toNat (by omega) (by omega)
+    rw [Int.toNat_of_nonneg hy0, Int.toNat_of_nonneg hx0] at this
+    rw [eh]; exact this
+  · rw [ery, ecy]; push_cast
+    have : (evaluate win (2 * (c : ℤ)) (2 * (c : ℤ))).ry + ((0 : ℚ) + (p.1 : ℚ) - (c : ℚ))
+        - (((evaluate win (2 * (c : ℤ)) (2 * (c : ℤ))).cy : ℚ) + (p.1 : ℚ) - (c : ℚ))
+        = (evaluate win (2 * (c : ℤ)) (2 * (c : ℤ))).ry - ((evaluate win (2 * (c : ℤ)) (2 * (c : ℤ))).cy : ℚ) := by ring
+    rw [this]; exact hry
+  · rw [erx, ecx]; push_cast
+    have : (evaluate win (2 * (c : ℤ)) (2 * (c : ℤ))).rx + ((0 : ℚ) + (p.2 : ℚ) - (c : ℚ))
+        - (((evaluate win (2 * (c : ℤ)) (2 * (c : ℤ))).cx : ℚ) + (p.2 : ℚ) - (c : ℚ))
+        = (evaluate win (2 * (c : ℤ)) (2 * (c : ℤ))).rx - ((evaluate win (2 * (c : ℤ)) (2 * (c : ℤ))).cx : ℚ) := by ring
+    rw [this]; exact hrx
+
+/-- **every output entry of a frame is filled with the result for its own peak, for every buffer
+count, both pipelines** (composition with the block-loop theorems of C08); entries beyond the peak
+list are left as they were -/
+theorem process_frame_fills_outputs (L : ℚ → ℚ) (mask frame : ℤ → ℤ → ℚ) (fy fx c : ℤ)
+    (peaks : ℤ → ℤ × ℤ) (n b : ℤ) (hn : 0 ≤ n) (hb : 0 < b) (out : ℤ → EvalOut) (i : ℤ) :
+    processFrameFast L mask frame fy fx c peaks n b out i
+      = (if 0 ≤ i ∧ i < n then fastPeak L mask frame fy fx c (peaks i) else out i) ∧
+    processFrameFull L mask frame fy fx c peaks n b out i
+      = (if 0 ≤ i ∧ i < n then fullPeak L mask frame fy fx c (peaks i) else out i) :=
+  ⟨C08.fast_runBlocks_spec _ peaks n b hn hb out i, C08.full_runBlocks_spec _ peaks n b hn hb out i⟩
+
+/-- non-vacuity: the composed crop-based pipeline evaluated on a concrete 4×4 frame, `c = 1`,
+identity in place of the logarithm, 2×2 mask, two peaks (one overlapping the border), buffer of 1 -/
+example :
+    let frame : ℤ → ℤ → ℚ := fun y x => if y = 1 ∧ x = 2 then 9 else 1
+    let mask : ℤ → ℤ → ℚ := fun y x => if y = 1 ∧ x = 1 then 1 else 0
+    let peaks : ℤ → ℤ × ℤ := fun i => if i = 0 then (1, 2) else (0, 0)
+    let out := processFrameFast id mask frame 4 4 1 peaks 2 1 (fun _ => ⟨0, 0, 0, 0, 0, none⟩)
+    ((out 0).cy, (out 0).cx, (out 0).height) = (1, 2, 9) ∧ ((out 1).cy, (out 1).cx) = (0, 0) := by
+  decide +kernel
 
 /-- slopes `(height − v)/d` are compared through their squares; squares of slopes are ≥ 0 and the
 reported elevation is `max(0, ·)` of the smallest slope, hence never negative -/
